@@ -121,9 +121,12 @@ def coq_trace(r):
 
 def run(ctx):
     broken = []
-    tr = pygen.regenerate(REPO, COQ / "Generated", only=["GenSafeUpdate"])
+    tr = pygen.regenerate(REPO, COQ / "Generated", only=["GenSafeUpdate", "GenMerge", "GenFiller"])
     if tr["GenSafeUpdate"]:
         broken.append(Broken("translator: GenSafeUpdate (safe_update_file / close_shard no longer write-temp, close, then rename)", tr["GenSafeUpdate"]))
+    for g in ("GenMerge", "GenFiller"):
+        if tr[g]:
+            broken.append(Broken(f"translator: {g} (the session model of the publication-order theorem no longer matches the source)", tr[g]))
     proof = None
     if not broken:
         try:
